@@ -28,6 +28,7 @@ import (
 	"github.com/plgd-dev/go-coap/v3/udp"
 	udpclient "github.com/plgd-dev/go-coap/v3/udp/client"
 
+	"verifharness/sim"
 	"verifharness/vr"
 	"verifharness/wl"
 )
@@ -140,11 +141,17 @@ func runHistory(rec *vr.Rec, c hcase) {
 		// its limiter slot, its observation) must be gone as soon as every call has returned and
 		// nothing is in flight any more; only caches with a lifetime of their own may wait for the housekeeping
 		pre := p.Cli.VerifSizes()
-		for try := 0; try < 4 && pre["token_handlers"]+pre["mid_handlers"]+pre["limiter_entries"]+pre["observations"] != 0; try++ {
+		// (read again for a while before calling it a leftover: "nothing in flight" is judged from outside, and on a busy
+		// machine a goroutine of the connection may not have run for milliseconds)
+		sim.WaitFor(2*time.Second, func() bool {
+			if pre["token_handlers"]+pre["mid_handlers"]+pre["limiter_entries"]+pre["observations"] == 0 {
+				return true
+			}
 			p.Drain()
 			time.Sleep(5 * time.Millisecond)
 			pre = p.Cli.VerifSizes()
-		}
+			return false
+		})
 		// (the per-message-ID lock table is not in this list: an entry exists while ANY received message is being
 		// processed, e.g. a late duplicate the default handler is looking at right now - transient, not per call)
 		for _, table := range []string{"token_handlers", "mid_handlers", "limiter_entries", "observations"} {
@@ -165,11 +172,18 @@ func runHistory(rec *vr.Rec, c hcase) {
 			sz := cc.VerifSizes()
 			// what outlives the exchange stays; what is merely in use this instant (a lock taken while a late datagram is
 			// being looked at) is gone a moment later: read again before calling it a leftover
-			for try := 0; try < 4 && sizesStr(sz) != "[]"; try++ {
+			// the same goes for what a late goroutine of the connection stored AFTER the housekeeping runs above (a handler
+			// that was still about to cache its response): housekeeping runs again - a leftover is what survives that
+			sim.WaitFor(2*time.Second, func() bool {
+				if sizesStr(sz) == "[]" {
+					return true
+				}
 				p.Drain()
 				time.Sleep(5 * time.Millisecond)
+				p.Sweep()
 				sz = cc.VerifSizes()
-			}
+				return false
+			})
 			for table, n := range sz {
 				if n != 0 {
 					rec.Violation("C13/"+c.Kind+"/"+side+"/leftover/"+table, fmt.Sprintf("after all %d exchanges returned and the housekeeping ran beyond every deadline (repeat %d): %s", len(c.Exchanges), rep, sizesStr(sz)), c)
@@ -230,6 +244,16 @@ func liveObservation(rec *vr.Rec, kind string) {
 		}
 	}
 	sz = p.Cli.VerifSizes()
+	sim.WaitFor(2*time.Second, func() bool {
+		if sizesStr(sz) == "[]" {
+			return true
+		}
+		p.Drain()
+		time.Sleep(5 * time.Millisecond)
+		p.Sweep()
+		sz = p.Cli.VerifSizes()
+		return false
+	})
 	for table, n := range sz {
 		if n != 0 {
 			rec.Violation("C13/"+kind+"/client/leftover/"+table, sizesStr(sz), nil)
